@@ -1100,7 +1100,7 @@ func (b *Builder) inlineFunc(fs *FuncSrc, recv *Term, args []*Term, pos token.Po
 }
 
 func (b *Builder) inlineLit(lit *ast.FuncLit, args []*Term, pos token.Pos, nres int) []*Term {
-	inst := &Instance{ID: len(b.G.Insts), Name: "lit", Parent: b.inst, Lexical: b.inst, Depth: b.inst.Depth, CallPos: pos}
+	inst := &Instance{ID: len(b.G.Insts), Name: "lit", Parent: b.inst, Lexical: b.inst, Depth: b.inst.Depth, CallPos: pos, Lit: lit}
 	b.G.Insts = append(b.G.Insts, inst)
 	saveInst, saveLoops := b.inst, b.loops
 	b.inst, b.loops = inst, nil
